@@ -119,8 +119,23 @@ void sim::engine_fault(RunCtx& cx) {
     cx.tag(std::string("fault-") + kind_name(fs.kind));
     cx.tag(fs.persist ? "persistent" : "once");
     if (cx.describe) cx.description += std::string(" || FAULT ") + kind_name(fs.kind) + (fs.persist ? " persistent" : " once") + " at write #" + std::to_string(fs.j) + " issued during op #" + std::to_string(fs.op);
-    bool armed = false, exception_since_fault = false;
     std::string fault_dest;
+    // C15 under write faults: whatever is visible under the faulted output's final name must be the complete output
+    // (the bytes of the fault-free pass) — a file that lost bytes must not be given its final name.
+    auto check_final_name = [&](size_t k) {
+        if (p.plan.sw.fd_output || k >= p.M.closed.size() || k >= p1.closed_raw.size()) return;
+        const std::string& name = p.M.closed[k].name;
+        if ((name + ".part") != fault_dest) return;
+        if (F.exists(name) && F.get(name) != p1.closed_raw[k]) {
+            bool older = false;
+            for (auto& of : p.old_files) if (of == name && fnv1a(F.get(name)) == p.old_hash[of]) older = true;
+            if (!older)
+                cx.violation("C15", std::string("C15/I14/incomplete-file-under-final-name/") + (p.plan.sw.compression ? "compressed" : "plain"),
+                             name + " is visible under its final name with " + std::to_string(F.get(name).size()) + " bytes although the complete output has " + std::to_string(p1.closed_raw[k].size()) +
+                                 " [fault: " + kind_name(fs.kind) + (fs.persist ? " persistent" : " once") + " at write #" + std::to_string(fs.j) + " of op " + std::to_string(fs.op) + "]");
+        } else cx.ctr->add("probe.faulted_output_name_checked");
+    };
+    bool armed = false, exception_since_fault = false;
     size_t closed_seen = 0;
     int first_exc_op = -1;
     std::string first_exc_what;
@@ -157,6 +172,7 @@ void sim::engine_fault(RunCtx& cx) {
             // an output was closed and rotate_output returned normally
             size_t k = closed_seen++;
             bool fired = armed && !F.wfaults.empty() && F.wfaults[0].fired > 0;
+            if (fired) check_final_name(k);
             if (fired && !exception_since_fault && k < p1.closed_raw.size() && k < p.closed_raw.size()) {
                 const model::MOutput& mo = p.M.closed[k];
                 bool is_faulted_output = (mo.name + (p.plan.sw.fd_output ? "" : ".part")) == fault_dest || mo.name == fault_dest;
@@ -279,6 +295,29 @@ void sim::engine_fault(RunCtx& cx) {
         }
     } else if (fired) {
         cx.ctr->add("probe.fault_fired_no_exception");
+    }
+    // C15 under write faults, exception path: if the faulted output is visible under its final name now, it must be a complete
+    // document (or an intact older file) — never the truncated output
+    if (fired && first_exc_op >= 0 && !p.plan.sw.fd_output && fault_dest.size() > 5) {
+        std::string name = fault_dest.substr(0, fault_dest.size() - 5);
+        if (F.exists(name)) {
+            const std::string& raw = F.get(name);
+            bool older = false;
+            for (auto& of : p.old_files) if (of == name && fnv1a(raw) == p.old_hash[of]) older = true;
+            std::string plain, err;
+            bool ok = true;
+            if (!older) {
+                if (p.plan.sw.compression == 1) ok = model::gunzip_exact(raw, plain, err);
+                else if (p.plan.sw.compression == 2) ok = model::unxz_exact(raw, plain, err);
+                else plain = raw;
+                if (ok && !plain.empty()) { try { ref::Interp::file(plain); } catch (std::exception& e) { ok = false; err = e.what(); } }
+                if (!ok)
+                    cx.violation("C15", std::string("C15/I14/incomplete-file-under-final-name/") + (p.plan.sw.compression ? "compressed" : "plain"),
+                                 name + " is visible under its final name but is not a complete output (" + err + ") [fault: " + kind_name(fs.kind) + (fs.persist ? " persistent" : " once") + " at write #" +
+                                     std::to_string(fs.j) + " of op " + std::to_string(fs.op) + "]");
+            }
+            cx.ctr->add("probe.faulted_output_name_checked");
+        }
     }
     // destruction is outside the guarantee
     cx.log.ev("DESTROY");
